@@ -9,6 +9,8 @@ Decided:
          slot equals the key of the list appended to
   C20.3  record layout agreement: producers' 8 slots <-> indices used by cluster_indels <-> header column order <->
          sort key (chromosome, reference stop)
+  C20.4  every call reaches the clustering and every cluster reaches the file: the lists handed to cluster_indels are the
+         finders' lists, only sorted; the lines written are the concatenation of both clustered lists, only sorted
 Declined: interval cover for arbitrary unsorted input, the averaging of Length.
 """
 from __future__ import annotations
@@ -36,18 +38,71 @@ def _header_columns(ck, writer: FunctionInfo) -> Tuple[List[str], ast.AST]:
     return best
 
 
+def _only_sorted(t: Term, leaf_pred) -> Optional[Term]:
+    """strip sorted(...) / list(...) wrappers; the leaf must satisfy leaf_pred, anything else in between -> None"""
+    cur = t
+    while True:
+        if cur[0] == "call" and cur[1] in ("sorted", "list", "tuple") and len(cur[2]) == 1:
+            cur = cur[2][0]
+            continue
+        return cur if leaf_pred(cur) else None
+
+
+def _writer_conserves(ck, writer, cluster):
+    param = V(writer.call_params()[0].name)
+    paths = [pa for pa in explore(ck, writer, unroll=(0, 1)) if pa.outcome in ("fall", "return")]
+    if not paths:
+        raise AnalysisError(f"{writer.where}: write_indel_file has no complete path")
+    pa = max(paths, key=lambda q: len(q.events))
+    calls = []
+    seen_nodes = set()
+    for t, facts, node, kind in path_terms(pa):
+        for x in T.subterms(t):
+            if x[0] == "app" and x[1] == cluster.qualname and (id(node), x) not in seen_nodes and kind != "foriter":
+                if any(c is x or (c == x and n2 is node) for c, n2 in calls):
+                    continue
+                seen_nodes.add((id(node), x))
+                calls.append((x, node))
+    ck.floor("C20.4 cluster_indels calls in write_indel_file", len(calls), 2)
+
+    def from_dict(leaf):
+        return leaf[0] == "idx" and any(y == param for y in T.subterms(leaf[1])) or \
+            (leaf[0] == "idx" and leaf[1] == param) or (leaf[0] == "mcall" and leaf[1] == param and leaf[2] == "get")
+    for x, node in calls:
+        arg = list(dict(x[3]).values())[0] if x[3] else None
+        leaf = _only_sorted(arg, from_dict) if arg is not None else None
+        ck.judge(leaf is not None, "C20.4", "write_indel_file:clustered-input", where(writer, node),
+                 "the list handed to cluster_indels is one of the finders' lists, only sorted - every call takes part",
+                 found=T.show(arg)[:200] if arg is not None else "None",
+                 required="cluster_indels(sorted(<list of the dictionary>, key=(chromosome, stop)))")
+    # what is written: iteration over sorted(concat of the clustered lists)
+    loops = [e for e in pa.events if e.kind == "foriter"]
+    written = None
+    for e in loops:
+        base = e.term
+        while base[0] == "call" and base[1] in ("sorted", "list") and len(base[2]) == 1:
+            base = base[2][0]
+        if base[0] == "concat" and all(y[0] == "app" and y[1] == cluster.qualname for y in base[1]):
+            written = (base, e)
+    ck.judge(written is not None and len(written[0][1]) == len(calls), "C20.4", "write_indel_file:written", writer.where,
+             "the lines written are all clusters of both types (concatenation of the clustered lists, only sorted)",
+             found="; ".join(T.show(e.term)[:120] for e in loops) or "no loop over the clusters")
+
+
 def run(ck):
     ctx = ck.ctx
     p = ctx.p
     ck.clause("C20.1", "every call is consumed exactly once per clustering iteration (merge xor new cluster)")
     ck.clause("C20.2", "Length = |ref gap| - |query gap|; type 'insertion' iff negative; label = list key")
     ck.clause("C20.3", "record layout: producers <-> cluster_indels indices <-> header <-> sort key")
+    ck.clause("C20.4", "write_indel_file passes every call to cluster_indels and writes every cluster (sorting only)")
     cluster = p.find_function("sv.write_indel_files", "cluster_indels")
     writer = p.find_function("sv.write_indel_files", "write_indel_file")
     finders = [p.find_function("sv.molecule_indels", "look_for_indels_in_breakage"),
                p.find_function("sv.segment_indels", "look_for_indels_in_breakage")]
 
     cols, hnode = _header_columns(ck, writer)
+    _writer_conserves(ck, writer, cluster)
     ix = {c: i for i, c in enumerate(cols)}
     needed = ["Type", "Chromosome", "RefStart", "RefStop", "QueryId", "QueryStart", "QueryStop", "Length", "Count"]
     missing = [c for c in needed if c not in ix]
@@ -203,7 +258,7 @@ def run(ck):
                   follow=lambda callee: callee.module is cluster.module and callee is not cluster)
     body_paths = ex.run(body=main.body)
     ck.add_paths(len(body_paths))
-    ck.floor("C20.1 paths through one clustering iteration", len(body_paths), 3)
+    ck.floor("C20.1 paths through one clustering iteration", len(body_paths), 2)
     n_merge = n_new = 0
     for pa in body_paths:
         new_ev = []
